@@ -72,7 +72,9 @@ def teardown(self: 'API', reactor: 'Reactor', service: str, peers: list[str], co
     try:
         # command contains the teardown code (e.g., "6" for code 6)
         code = command.strip()
-        if not code.isdigit():
+        # the Cease subcode is one octet of the NOTIFICATION: a larger number cannot be sent (the peer
+        # task used to die building the message, without telling the remote end anything)
+        if not code.isdigit() or int(code) > 255:
             reactor.processes.answer_error_sync(service)
             return False
         for peer_key in peers:
